@@ -325,30 +325,58 @@ func genBlocking(repo string) (string, error) {
 	}
 	sort.Strings(extraVals)
 
-	// runFunc
+	// runFunc: the watcher goroutine and the `stop` channel are created under one condition; the
+	// epilogue that re-reads env.done is guarded by `stop != nil`
 	watcher, reread, ctxBeforePanic := false, false, false
-	ast.Inspect(runFuncFn.Body, func(n ast.Node) bool {
-		if g, ok := n.(*ast.GoStmt); ok {
-			t := blText(fset, g.Call)
-			if strings.Contains(t, "case <-vm.env.ctx.Done(): atomic.StoreInt32(&vm.env.done, 1)") && strings.Contains(t, "case <-stop:") {
-				watcher = true
+	watcherCond, stopCond, epilogueCond := "", "", ""
+	for i, st := range runFuncFn.Body.List {
+		ifs, ok := st.(*ast.IfStmt)
+		if !ok {
+			continue
+		}
+		cond := blText(fset, ifs.Cond)
+		for _, inner := range ifs.Body.List {
+			switch x := inner.(type) {
+			case *ast.GoStmt:
+				t := blText(fset, x.Call)
+				if strings.Contains(t, "case <-vm.env.ctx.Done(): atomic.StoreInt32(&vm.env.done, 1)") && strings.Contains(t, "case <-stop:") {
+					watcher = true
+					watcherCond = cond
+				}
+			case *ast.AssignStmt:
+				if len(x.Lhs) == 1 && blText(fset, x.Lhs[0]) == "stop" && strings.HasPrefix(blText(fset, x.Rhs[0]), "make(chan") {
+					stopCond = cond
+				}
 			}
 		}
-		return true
-	})
-	for i, st := range runFuncFn.Body.List {
-		if ifs, ok := st.(*ast.IfStmt); ok && blText(fset, ifs.Cond) == "stop != nil" {
-			t := blText(fset, ifs.Body)
-			if strings.Contains(t, "close(stop)") && strings.Contains(t, "if atomic.LoadInt32(&vm.env.done) == 1 { return vm.env.ctx.Err() }") {
+		t := blText(fset, ifs.Body)
+		if strings.Contains(t, "if atomic.LoadInt32(&vm.env.done) == 1 { return vm.env.ctx.Err() }") {
+			epilogueCond = cond
+			if strings.Contains(t, "close(stop)") {
 				reread = true
-				for _, later := range runFuncFn.Body.List[i+1:] {
-					if strings.HasPrefix(blText(fset, later), "if vm.panic != nil") {
-						ctxBeforePanic = true
-					}
+			}
+			for _, later := range runFuncFn.Body.List[i+1:] {
+				if strings.HasPrefix(blText(fset, later), "if vm.panic != nil") {
+					ctxBeforePanic = true
 				}
 			}
 		}
 	}
+	// is `stop` assigned anywhere else?
+	stopAssigns := 0
+	ast.Inspect(runFuncFn.Body, func(n ast.Node) bool {
+		if as, ok := n.(*ast.AssignStmt); ok {
+			for _, l := range as.Lhs {
+				if blText(fset, l) == "stop" {
+					stopAssigns++
+				}
+			}
+		}
+		return true
+	})
+	// every VM of a run (main, go, callback) shares env; the epilogue applies to every one of them
+	// iff the stop channel is created whenever the run has a cancellable context, nothing else
+	epilogueEvery := reread && epilogueCond == "stop != nil" && stopCond == "vm.env.doneChan != nil" && watcherCond == stopCond && stopAssigns == 1
 	stopSets := strings.Contains(blText(fset, stopFn.Body), "atomic.StoreInt32(&vm.env.done, 1)")
 	sort.Strings(outside)
 
@@ -379,6 +407,8 @@ func genBlocking(repo string) (string, error) {
 	b.WriteString("]\n\n")
 	fmt.Fprintf(&b, "/-- runFunc starts a goroutine that stores 1 into env.done when ctx.Done() fires (or ends on `stop`) -/\ndef watcherSetsDone : Bool := %v\n\n", watcher)
 	fmt.Fprintf(&b, "/-- after the code has finished runFunc closes `stop` and re-reads env.done: a set flag makes it return ctx.Err() -/\ndef rereadsDoneAfterFinish : Bool := %v\n\n", reread)
+	fmt.Fprintf(&b, "/-- the conditions under which runFunc starts the watcher, creates `stop`, and re-reads env.done -/\ndef watcherCondition : String := %s\ndef stopCondition : String := %s\ndef epilogueCondition : String := %s\n\n", swLeanStr(watcherCond), swLeanStr(stopCond), swLeanStr(epilogueCond))
+	fmt.Fprintf(&b, "/-- the re-read (and the watcher) exist for every VM of a run with a cancellable context — the main one, those started by\n`go`, those running a function value called by native code: `stop` is created exactly when `vm.env.doneChan != nil` and the\nepilogue is guarded by `stop != nil` only (in particular not by vm.main) -/\ndef epilogueForEveryVM : Bool := %v\n\n", epilogueEvery)
 	fmt.Fprintf(&b, "/-- that re-read comes before `if vm.panic != nil` (the context's error wins over an unrecovered panic) -/\ndef ctxErrBeforePanic : Bool := %v\n\n", ctxBeforePanic)
 	fmt.Fprintf(&b, "/-- vm.stop stores 1 into env.done (every VM of the run sees it at its next loop head) -/\ndef stopSetsDone : Bool := %v\n\n", stopSets)
 	b.WriteString("/-- Recv/Send/reflect.Select calls of internal/runtime outside (*VM).run -/\ndef blockingCallsOutsideRun : List String := [")
